@@ -328,6 +328,18 @@ def rewrite(m, src, util_src, registries, counts):
         return s2
     src = cnt('R3', r'(?:crate::)?cbor::ser::into_writer\(', 'crate::vprelude::into_writer_vec(', src, regex=True)
     src = cnt('R3', r'(?:crate::)?cbor::de::from_reader\(', 'crate::vprelude::from_reader_slice(', src, regex=True)
+    # a reader passed by value (`from_reader(&data[..])`) reads from a temporary: same result, the rest is discarded
+    pos = 0
+    while True:
+        i = src.find('crate::vprelude::from_reader_slice(', pos)
+        if i < 0:
+            break
+        b = i + len('crate::vprelude::from_reader_slice')
+        e = match_brace(src, b, '(', ')')
+        arg = src[b + 1:e].strip()
+        if not arg.startswith('&mut'):
+            src = src[:b + 1] + '&mut (' + arg + ')' + src[e:]
+        pos = b + 1
     src = cnt('R4', "text.trim() != text", "crate::vprelude::str_ne_string(text.trim(), text)", src)
     src = cnt('R4', r"(\w+)\.matches\('/'\)\.count\(\)", r"crate::vprelude::str_count_matches(&\1, '/')", src, regex=True)
 
@@ -426,7 +438,17 @@ def token_map(btoks, btext, ctoks, ctext):
     bl = lines_of(btoks, btext)
     cl = lines_of(ctoks, ctext)
     sm = difflib.SequenceMatcher(None, [k for k, _ in bl], [k for k, _ in cl], autojunk=False)
-    for tag, i1, i2, j1, j2 in sm.get_opcodes():
+    ops = [list(o) for o in sm.get_opcodes()]
+    # diff "slider": a deleted block whose first line equals the line that follows the block is pushed down,
+    # so that the code BEFORE a removed block keeps its ghost text (e.g. the `}` closing the previous statement)
+    for n_, o in enumerate(ops):
+        if o[0] == 'delete' and n_ + 1 < len(ops) and ops[n_ + 1][0] == 'equal' and n_ > 0 and ops[n_ - 1][0] == 'equal':
+            nxt, prv = ops[n_ + 1], ops[n_ - 1]
+            while o[1] < o[2] and nxt[1] < nxt[2] and bl[o[1]][0] == bl[nxt[1]][0]:
+                o[1] += 1; o[2] += 1; o[3] += 1; o[4] += 1
+                prv[2] += 1; prv[4] += 1
+                nxt[1] += 1; nxt[3] += 1
+    for tag, i1, i2, j1, j2 in ops:
         if tag == 'equal':
             for di in range(i2 - i1):
                 for x, y in zip(bl[i1 + di][1], cl[j1 + di][1]):
@@ -434,6 +456,17 @@ def token_map(btoks, btext, ctoks, ctext):
         elif tag == 'replace':
             bi = [x for _, g in bl[i1:i2] for x in g]
             ci = [y for _, g in cl[j1:j2] for y in g]
+            # common prefix / suffix of the hunk are the same code, whatever their length
+            pre = 0
+            while pre < len(bi) and pre < len(ci) and btoks[bi[pre]][2] == ctoks[ci[pre]][2]:
+                M[bi[pre]] = ci[pre]
+                pre += 1
+            suf = 0
+            while suf < len(bi) - pre and suf < len(ci) - pre and btoks[bi[-1 - suf]][2] == ctoks[ci[-1 - suf]][2]:
+                M[bi[-1 - suf]] = ci[-1 - suf]
+                suf += 1
+            bi = bi[pre:len(bi) - suf]
+            ci = ci[pre:len(ci) - suf]
             sm2 = difflib.SequenceMatcher(None, [btoks[x][2] for x in bi], [ctoks[y][2] for y in ci], autojunk=False)
             for a, b, size in sm2.get_matching_blocks():
                 # inside a changed hunk only runs of >= 3 tokens count as "the same code" (single brackets, dots and
